@@ -878,6 +878,18 @@ func (ts *TermStore) FBin(op Op, a, b *Term) *Term {
 		}
 		return ts.F64(r)
 	}
+	// x * 1.0 == x exactly (also for NaN/Inf/-0)
+	if op == OFMul {
+		if b.IsConst() && b.cFloat() == 1 {
+			return a
+		}
+		if a.IsConst() && a.cFloat() == 1 {
+			return b
+		}
+	}
+	if op == OFDiv && b.IsConst() && b.cFloat() == 1 {
+		return a
+	}
 	return ts.mk(op, a.Sort, 0, "", a, b)
 }
 
